@@ -1,0 +1,14 @@
+//go:build !verif
+
+package queue
+
+import "github.com/foxcpp/maddy/framework/module"
+
+// Trace hooks of the verification harness (/verif); no-ops without the build tag "verif".
+
+func verifAccept(*Queue, *QueueMetadata)                                              {}
+func verifEv(*Queue, *QueueMetadata, string, error)                                   {}
+func verifWrapDelivery(_ *Queue, _ *QueueMetadata, d module.Delivery) module.Delivery { return d }
+func verifWrapDSN(_ *Queue, _ *QueueMetadata, _ []string, d module.Delivery) module.Delivery {
+	return d
+}
